@@ -239,6 +239,12 @@ func runR131(c *Ctx) {
 			return strings.HasSuffix(x.Type().String(), "protowire.Number")
 		}
 		if bo.Op == token.EQL && (isNumber(bo.X) || isNumber(bo.Y)) {
+			// `number == Root || number == Children` lowers to two edges, so no single
+			// equality dominates the body; an equality that *does* dominate a digest's
+			// existence check restricts it to one of the two fields
+			if v && k.owner != "" {
+				return false, "the Tree field being one particular field (root only, or children only)"
+			}
 			return true, ""
 		}
 		// size budget (tree read only): an ordering comparison between two int64 sizes, either spelling
